@@ -3,9 +3,13 @@
 property) and manifest.d/not_applicable.json."""
 import glob, json, os
 V = os.path.dirname(os.path.dirname(os.path.abspath(__file__)))
+import subprocess
+tracked = set(subprocess.run(["git", "-C", V, "ls-files", "manifest.d"], capture_output=True, text=True).stdout.split())
 checks = []
 for p in sorted(glob.glob(os.path.join(V, "manifest.d", "C*.json"))):
-    checks.append(json.load(open(p)))
+    # only checks whose files are committed are claimed
+    if os.path.relpath(p, V) in tracked:
+        checks.append(json.load(open(p)))
 claimed = {c["property_id"] for c in checks}
 na_path = os.path.join(V, "manifest.d", "not_applicable.json")
 na = json.load(open(na_path)) if os.path.exists(na_path) else {}
